@@ -13,13 +13,22 @@ def section(txt, pat):
     lvl = len(m.group(1)); rest = txt[m.end():]
     e = re.search(r"^#{1,%d}\s" % lvl, rest, re.M)
     return (rest[:e.start()] if e else rest).strip()
-cl, r2 = [], []
+cl, r2, pt = [], [], []
 for p in sorted(glob.glob(os.path.join(ROOT, "notes", "C[0-9][0-9].md"))):
     pid = os.path.basename(p)[:-3]; txt = open(p).read()
     s1 = section(txt, r"clauses")
     cl.append("#### %s\n\n%s\n" % (pid, s1 if s1 else "*(no clause table in notes/%s.md yet)*" % pid))
     s2 = section(txt, r"round 2")
     r2.append("#### %s\n\n%s\n" % (pid, s2 if s2 else "*(see notes/%s.md)*" % pid))
+    # the section of the notes whose heading starts with Partial / What is partial (not a title that merely contains the word)
+    m3 = re.search(r"^(#{2,4})\s*(?:what is\s+)?partial\b[^\n]*\n", txt, re.M | re.I)
+    s3 = None
+    if m3:
+        rest = txt[m3.end():]; e3 = re.search(r"^#{1,%d}\s" % len(m3.group(1)), rest, re.M)
+        s3 = (rest[:e3.start()] if e3 else rest).strip()
+    c = json.load(open(os.path.join(ROOT, "checks", pid + ".json")))
+    ln = c["manifest"]["level_note"]
+    pt.append("#### %s\n\n%s\n\n%s\n" % (pid, re.sub(r"\s+", " ", ln), s3 if s3 else ""))
 ties = ["| property | Tie module | regenerated input | obligations (theorems) |", "|---|---|---|---|"]
 for p in sorted(glob.glob(os.path.join(ROOT, "checks", "C*.json"))):
     c = json.load(open(p))
@@ -43,7 +52,7 @@ for mp in sorted(glob.glob(os.path.join(ROOT, "harmless", "H*", "meta.json")), k
     else: res = "quiet"
     hm.append("| %s %s | %s | %s | %s |" % (hid, re.sub(r"\s+", " ", m.get("what", "")).replace("|", "/")[:200], ", ".join(m["files"])[:120], ", ".join(m["properties"]), res))
 p = os.path.join(ROOT, "DESIGN.md"); s = open(p).read()
-for name, t in (("CLAUSES", "\n".join(cl)), ("ROUND2", "\n".join(r2)), ("TIES", "\n".join(ties)), ("HARMLESS", "\n".join(hm))):
+for name, t in (("CLAUSES", "\n".join(cl)), ("ROUND2", "\n".join(r2)), ("TIES", "\n".join(ties)), ("HARMLESS", "\n".join(hm)), ("PARTIAL", "\n".join(pt))):
     b, e = "<!-- BEGIN %s -->" % name, "<!-- END %s -->" % name
     s = s[:s.index(b) + len(b)] + "\n" + t + "\n" + s[s.index(e):]
 open(p, "w").write(s)
